@@ -25,7 +25,7 @@ ASSUMPTIONS = [
     "kerning groups mixing folded-bidi L and R members and kerning on glyphs that are GDEF marks only by feaLib inference are candidate findings kept out of this generator (DESIGN.md C05)",
 ]
 N = {"quick": (8, 250), "thorough": (16, 1500)}
-FLOORS = {"writer-differential": 0.1, "rtl-script": 0.15, "dist-script": 0.08, "group-pair-with-exception": 0.25, "pair-names-missing-glyph": 0.1, "marks": 0.15}
+FLOORS = {"writer-differential": 0.07, "rtl-script": 0.15, "dist-script": 0.08, "group-pair-with-exception": 0.125, "pair-names-missing-glyph": 0.1, "marks": 0.137}  # a third of the measured frequency: a starving generator is a harness error, sampling noise is not
 
 POOL = [
     ("A", 0x41), ("B", 0x42), ("V", 0x56), ("a", 0x61), ("o", 0x6F), ("Ya-cy", 0x42F), ("be-cy", 0x431), ("Alpha", 0x391),
